@@ -30,7 +30,10 @@ def showState (s : State) : String :=
   "] mb[" ++ joinSep "," (s.missedBits.map fun e => s!"{e.1.1}:{e.1.2}={b01 e.2}") ++
   "] aw[" ++ joinSep "," (s.awards.map fun e => s!"{e.1}={e.2}") ++
   "] bn[" ++ joinSep "," (s.burns.map fun e => s!"{e.1}={e.2}") ++
-  s!"] prop={s.proposer} ptot={s.prevTot}"
+  s!"] prop={s.proposer} ptot={s.prevTot}" ++
+  -- the second denomination, only when somebody holds some (older histories print as before)
+  (if s.bal2.isEmpty && s.supply2 == 0 then "" else
+    " b2[" ++ joinSep "," (s.bal2.map fun e => s!"{e.1}={e.2}") ++ s!"] s2={s.supply2}")
 
 structure ChainProg where
   st : Option State     -- none = no chain / halted
@@ -51,6 +54,12 @@ def parseGenesis : List String → List (Addr × Int) × List (Addr × Int)
     (accs, (a, (t.toInt?).getD 0) :: vals)
   | _ :: rest => parseGenesis rest
   | [] => ([], [])
+
+/-- balances in the second denomination: `acc2 <addr> <amount>` -/
+def parseAccs2 : List String → List (Addr × Int)
+  | "acc2" :: a :: b :: rest => (a, (b.toInt?).getD 0) :: parseAccs2 rest
+  | _ :: rest => parseAccs2 rest
+  | [] => []
 
 /-- exported signing infos: `si <addr> <start> <offset> <missed> <jailedUntil ns, -1 = for ever> <tombstoned 0|1>` -/
 def parseSigning : List String → List (Addr × Sign)
@@ -79,7 +88,7 @@ def initState (toks : List String) (mods keys : List String) : State × List (Ad
             paramNames := allParamNames, pool := mods.getD 0 "", feeAcc := mods.getD 1 "", posAcc := mods.getD 2 "",
             daoAcc := mods.getD 3 "", keys := (List.range keys.length).zip keys, nStored := (if kvOf toks "stored" == "" then keys.length else (intOf toks "stored").toNat),
             defaultMaxVals := Posmint.Generated.defaultMaxValidators,
-            signing := parseSigning toks, missed := parseMissed toks }
+            signing := parseSigning toks, missed := parseMissed toks, accs2 := parseAccs2 toks }
 
 def parseVotes (s : String) : List Vote :=
   if s == "-" || s == "" then [] else
@@ -143,6 +152,7 @@ def stepChain (pr : ChainProg) (toks : List String) : ChainProg × String :=
                             -- the multisignature-specific damages (components exchanged / one dropped) are signature damage
                             -- white space added to the memo is a memo change; a changed message field or a signature made for
                             -- another chain id is a signature that does not match the sign bytes
+                            fee2 := (if kvOf rest "fee2" == "" then 0 else intOf rest "fee2"),
                             mutn := (let m := kvOf rest "mut"
                                      if m == "nilint" then "garbage"   -- the amount is absent from the wire: ValidateBasic panics, the tx is refused
                                      else if m == "msswap" || m == "msdrop" || m == "msg" || m == "chain" then "sig"
